@@ -123,6 +123,14 @@ func (db *SpecDB) detExt(fn *ssa.Function) bool {
 	if db.detFns[fn.String()] {
 		return true
 	}
+	// accessors of library objects: deterministic in (receiver, arguments) as
+	// long as the object is not modified in between (requests and headers are
+	// read-only for the code under contract)
+	switch fn.String() {
+	case "(*net/http.Request).BasicAuth", "(net/http.Header).Get", "(*net/http.Request).Context", "(*net/http.Request).UserAgent",
+		"(net/http.Header).Values", "(*encoding/base64.Encoding).EncodeToString", "(*encoding/base64.Encoding).DecodeString", "(*net/url.URL).Hostname", "(*net/url.URL).Port", "(*net/url.URL).String", "(net.IP).String", "(net.IP).To4":
+		return true
+	}
 	switch pp {
 	case "strings", "strconv", "slices", "bytes", "cmp", "path", "path/filepath", "unicode", "unicode/utf8", "encoding/base64", "encoding/hex", "crypto/md5", "net/netip", "math":
 		// functions taking pointers / writers are not value functions
@@ -138,14 +146,6 @@ func (db *SpecDB) detExt(fn *ssa.Function) bool {
 		case "JoinHostPort", "SplitHostPort", "ParseIP", "ParseCIDR":
 			return true
 		}
-	}
-	// accessors of library objects: deterministic in (receiver, arguments) as
-	// long as the object is not modified in between (requests and headers are
-	// read-only for the code under contract)
-	switch fn.String() {
-	case "(*net/http.Request).BasicAuth", "(net/http.Header).Get", "(*net/http.Request).Context", "(*net/http.Request).UserAgent",
-		"(net/http.Header).Values", "(*net/url.URL).Hostname", "(*net/url.URL).Port", "(*net/url.URL).String", "(net.IP).String", "(net.IP).To4":
-		return true
 	}
 	return false
 }
